@@ -53,10 +53,13 @@ fn probe_one(m: &HistModel, st: &St, i: usize, proto: u16, id: u16, other_id: u1
     probes.push(("last-set", mk(&[("T", 900), ("D", id)]), false));
     probes.push(("first-set", mk(&[("D", id), ("T", 901)]), false));
     probes.push(("middle-set", mk(&[("T", 902), ("D", id), ("D", 902)]), false));
-    let v5 = fixed_distinct(5, 1, 8);
-    let mut after = v5.clone();
-    after.extend_from_slice(&alone);
-    probes.push(("after-a-V5-packet-in-the-buffer", after, true));
+    // (a packet of a disallowed version would end the result silently before the probe data is even looked at)
+    if m.is_allowed(i, 5) {
+        let v5 = fixed_distinct(5, 1, 8);
+        let mut after = v5.clone();
+        after.extend_from_slice(&alone);
+        probes.push(("after-a-V5-packet-in-the-buffer", after, true));
+    }
     if other_known {
         let mut b = mk(&[("D", other_id)]);
         b.extend_from_slice(&alone);
@@ -106,6 +109,14 @@ fn probe_one(m: &HistModel, st: &St, i: usize, proto: u16, id: u16, other_id: u1
             let solo = p2.parse_bytes(&bytes[..first_len]);
             if solo.len() != 1 || res.is_empty() || format!("{:?}", solo[0]) != format!("{:?}", res[0]) {
                 out.push(issue(format!("{}/earlier-packet-changed-by-unknown-template-data", pn), format!("instance {}: probe {}", i, hex(&bytes))));
+            }
+        }
+        // "the caches are unchanged by it": a template that precedes it in the same packet is learned as usual
+        if pos == "last-set" {
+            let mut p3 = m.rebuild(i, &st.enc[i]).unwrap();
+            p3.parse_bytes(&mk(&[("T", 900)]));
+            if enc_of(&p) != enc_of(&p3) {
+                out.push(issue(format!("{}/template-before-unknown-template-data-not-learned", pn), format!("instance {}: after probe {} the caches differ from those after the template set alone", i, hex(&bytes))));
             }
         }
         // caches unchanged when the packet contains nothing else
